@@ -67,7 +67,7 @@ def make_classes():
             self.col_ = 1 + (sum(ids) % (X.shape[1] - 1)) if self.learn else 1
             self.classes_ = np.array([0, 1])
             with _LOCK:
-                LOG["est_fit"].append((ids, [int(v) for v in y]))
+                LOG["est_fit"].append((ids, [int(v) for v in y], int(self.col_)))
             return self
 
         def _score(self, X):
@@ -333,7 +333,9 @@ def run_brew(case, keep_dir=None):
             except BaseException as e:   # noqa
                 if isinstance(e, (KeyboardInterrupt, SystemExit, MemoryError)):
                     raise
-                return {"keys": keys, "error": lib.err_kind(e), "message": str(e)[:200]}
+                # what the estimators of the fold models learned is known even though brew raised afterwards
+                return {"keys": keys, "error": lib.err_kind(e), "message": str(e)[:200],
+                        "est_fits": [(sorted(x[0]), x[2]) for x in LOG["est_fit"] if len(x) > 2]}
             conf_files, leftovers = None, None
             if case.get("confidence"):
                 import mokapot.confidence as conf
